@@ -31,8 +31,15 @@ const ERR_ID: i64 = 4242;
 fn gen_spine(rng: &mut Rng, depth: u32, nsrc: usize) -> Json {
   let mut p = Json::obj(vec![("src", Json::Int(0))]);
   let mut other = 1usize;
-  for _ in 0..depth {
+  for lvl in 0..depth {
     let r = rng.below(100);
+    if lvl == 0 && other < nsrc && rng.below(6) == 0 {
+      // amb right on the sources: the faulted source's error must travel iff it is the first to signal
+      let sib = Json::obj(vec![("src", Json::Int(other as i64))]);
+      other += 1;
+      p = Json::obj(vec![("multi", Json::str("amb")), ("ins", Json::Arr(if rng.below(2) == 0 { vec![p, sib] } else { vec![sib, p] }))]);
+      continue;
+    }
     if r < 70 {
       let op = *rng.pick(NON_HANDLERS);
       let a = match op {
@@ -118,7 +125,8 @@ impl Family for C04Travel {
         }
         if let Some(m) = n.get("multi").and_then(|x| x.as_str()) {
           if m == "amb" {
-            return false;
+            // only directly on plain sources (who signals first is then read off the source logs)
+            return n.a("ins").iter().all(|x| x.get("src").is_some());
           }
           let ins = n.a("ins");
           let has0 = |x: &Json| {
@@ -188,6 +196,28 @@ impl Family for C04Travel {
         l.emits.iter().find(|e| e.step == Step::E(ERR_ID)).map(|e| (e.seq_start, e.sub_before))
       }
       .or_else(|| rb.subject_emits.iter().find(|e| e.src == 0 && e.step == Step::E(ERR_ID)).map(|e| (e.seq_start, e.observers_before > 0)));
+      // under amb the error only has to travel when source 0 is the first input to signal
+      let first_signal = |r: &SeqRun, i: usize| -> Option<u64> {
+        let a = r.src_logs[i].lock().unwrap().emits.first().map(|e| e.seq_start);
+        let b = r.subject_emits.iter().filter(|e| e.src == i).map(|e| e.seq_start).min();
+        match (a, b) {
+          (Some(x), Some(y)) => Some(x.min(y)),
+          (x, y) => x.or(y),
+        }
+      };
+      let has_amb = pshow.contains("amb(");
+      let loses_amb = has_amb && {
+        let mine = first_signal(&rb, 0);
+        (1..spec.sources.len()).any(|i| match (mine, first_signal(&rb, i)) {
+          (Some(m), Some(o)) => o <= m,
+          (None, _) => true,
+          _ => false,
+        })
+      };
+      if loses_amb {
+        last_res = Some(rb.res);
+        continue;
+      }
       if let Some((at, live)) = emitted {
         if live {
           // both runs are identical up to the injection instant
@@ -298,7 +328,24 @@ impl Family for C04Handlers {
     }
     // a real Subject as the hot source: one script that goes on after an error (a Subject has no
     // terminal memory), so a handler that resubscribes inside the error notification must see the rest
-    let sources = if rng.below(3) == 0 {
+    let replaying = rng.below(5) == 0 && !(op == "retry" && a == 0) && !(op == "retry_when" && a.rem_euclid(4) == 0);
+    let sources = if replaying {
+      // a real ReplaySubject: every resubscription is handed the whole history and the stored
+      // terminal again, also when it happens inside the error notification itself
+      let mut s: Vec<Step> = scripts[0].clone();
+      if !s.iter().any(|x| !matches!(x, Step::N(_))) {
+        s.push(Step::E(rng.range(1, 8) as i64));
+      }
+      if op == "retry_when" {
+        // an error the predicate rejects (an accepted one would be replayed for ever)
+        for st in s.iter_mut() {
+          if let Step::E(id) = st {
+            *id = *[5i64, 7].iter().find(|x| !pred_allows(a, **x)).unwrap_or(&5);
+          }
+        }
+      }
+      vec![SrcSpec { mode: Mode::ReplaySubject, scripts: vec![s] }]
+    } else if rng.below(3) == 0 {
       let mut s: Vec<Step> = Vec::new();
       for (k, sc) in scripts.iter().enumerate() {
         let _ = k;
@@ -317,7 +364,19 @@ impl Family for C04Handlers {
       Some(s) => s,
       None => return RunOut::invalid(),
     };
-    let is_subject = spec.sources.len() == 1 && spec.sources[0].mode == Mode::Subject;
+    let is_replay = spec.sources.len() == 1 && spec.sources[0].mode == Mode::ReplaySubject;
+    let is_subject = spec.sources.len() == 1 && (spec.sources[0].mode == Mode::Subject || is_replay);
+    if is_replay {
+      // exactly one terminal, at the end of the only script
+      let sc = match spec.sources[0].scripts.first() {
+        Some(s) => s,
+        None => return RunOut::invalid(),
+      };
+      let nterm = sc.iter().filter(|x| !matches!(x, Step::N(_))).count();
+      if nterm != 1 || matches!(sc.last(), Some(Step::N(_))) {
+        return RunOut::invalid();
+      }
+    }
     if spec.sources.len() != 1 || !(spec.sources[0].mode == Mode::Hot || is_subject) || !spec.order.iter().all(|o| *o == 0) {
       return RunOut::invalid();
     }
@@ -383,6 +442,15 @@ impl Family for C04Handlers {
       }
       find_outer(&spec.pipeline)
     };
+    if is_replay {
+      let stored = spec.sources[0].scripts[0].iter().find_map(|s| if let Step::E(id) = s { Some(*id) } else { None });
+      if let Some(id) = stored {
+        // a stored error is replayed to every new attempt: an unbounded budget never ends
+        if (op == "retry" && a == 0) || (op == "retry_when" && pred_allows(a, id)) {
+          return RunOut::invalid();
+        }
+      }
+    }
     let mut outer_attempt = 1i64;
     let mut cfg = cfg;
     cfg.step_budget = 40_000;
@@ -445,6 +513,17 @@ impl Family for C04Handlers {
             done = true;
           }
           (Step::E(id), "mat_demat") => {
+            exp.push(Ev::Error(*id));
+            live = false;
+            done = true;
+          }
+          (Step::E(id), "retry") | (Step::E(id), "retry_when") if is_replay => {
+            // every further attempt is handed the history and the stored error at once
+            let total = if op == "retry" { a * outer_budget.max(1) } else { 1 };
+            let items: Vec<Ev> = sc[..pos - 1].iter().filter_map(|s| if let Step::N(x) = s { if keep(*x) { Some(Ev::Next(Val::Int(*x))) } else { None } } else { None }).collect();
+            for _ in 1..total {
+              exp.extend(items.iter().cloned());
+            }
             exp.push(Ev::Error(*id));
             live = false;
             done = true;
